@@ -8,7 +8,7 @@ CLAIMED = {
                 text='seeded search over interleavings (file-system-call granularity) of 2-5 contender processes running '
                      'the real FileLock/SemLock/LockFile code on a simulated kernel (SimFS flock semantics, simulated clock, '
                      'process kills); online mutual-exclusion monitor, justified-timeout oracle, relock-after-quiescence '
-                     '(incl. giving up on stale information after the lock became free) and deadlock detection. Sampling of schedules, not proof.',
+                     '(incl. giving up on stale information after the lock became free) and deadlock detection; one unlink of the lock file may fail (EPERM/EIO/EACCES). Sampling of schedules, not proof.',
                 note='trusted: SimFS model of open/flock/unlink/close semantics (differentially tested against tmpfs), '
                      'pre-emption only at seam calls, CPython refcounting for descriptor lifetime',
                 technique='deterministic simulation: baton-passing scheduler over real threads + in-memory POSIX fs with flock, seeded schedule search, process-kill injection'),
@@ -20,7 +20,8 @@ CLAIMED = {
                      'levels, dimension values, shared single-colour links), real backend objects compared operation by '
                      'operation and by full-pool sweeps with a dict reference model; separate I/O-fault configuration '
                      '(EIO/ENOSPC/EACCES/short write inside a mutating call, one-shot or lasting until the call returns) for the file and compact '
-                     'backends on SimFS; about one case in 200 is a three-phase history in three separately started interpreters.',
+                     'backends on SimFS; about one case in 200 is a three-phase history in three separately started interpreters; about one in eight is a '
+                     'concurrent-writers case (2-3 processes or threads with disjoint but colliding addresses under the scheduler).',
                 note='trusted: SimFS for file/compact backends; sqlite-based backends run on a real tmpfs directory outside the '
                      'simulator (sequential, fault-free only; a second connection waits 0.3 s of real time for a locked database); sampling of histories, not exhaustive',
                 technique='deterministic simulation: model-based history checking against a reference map on a simulated file system with I/O-fault injection'),
